@@ -623,6 +623,18 @@ def check_ownership(repo, rep):
                     writes.append(tt)
         if writes:
             ok = fn.name in GRID_WRITERS
+            if not ok:
+                # a private step taken out of an editor: a method the confirmed tree does not have, called from nowhere but
+                # the editors (its statements are then read as part of them by every other rule)
+                from ..normalize import _pinned_functions
+                new_helper = f"Table.{fn.name}" not in _pinned_functions("document.py") and fn.name.startswith("_")
+                if new_helper:
+                    callers = set()
+                    for rel_ in repo.modules():
+                        for f2 in [x for x in ast.walk(repo.raw_tree(rel_)) if isinstance(x, ast.FunctionDef)]:
+                            if f2.name != fn.name and any(isinstance(c, ast.Call) and isinstance(c.func, ast.Attribute) and c.func.attr == fn.name for c in ast.walk(f2)):
+                                callers.add(f2.name)
+                    ok = bool(callers) and callers <= set(GRID_WRITERS)
             rep.ob("C03.R4", fn, f"Table.{fn.name} writes {sorted(set(writes))[:3]}", ok,
                    "" if ok else "the grid or its dimensions are changed outside the editing API", key=f"C03.R4@Table.{fn.name}")
     # save closure: model functions that receive the grid must not mutate it
